@@ -110,6 +110,19 @@ PROPS = {
                         "I/O equivalence has no callee-level statement a contract can carry (pipeline half not applicable to this technique)."),
         "trusted_base": [KANI_TRUST, OS_TRUST],
     },
+    "C17": {
+        "level": "other",
+        "design_ref": "DESIGN.md section 5, C17",
+        "level": "proof",
+        "summary": ("read_line after the repair (commit 64df517): sys::unix::read_line_from<R: BufRead> is extracted and verified by Verus "
+                    "against the property statement for ALL inputs and EVERY chunking: with the reader modelled by std's BufRead contract "
+                    "(fill_buf returns an arbitrary non-empty prefix of the unconsumed input), one call returns exactly line_of(rest) and "
+                    "leaves exactly after_line(rest), so successive calls deliver successive lines and empty strings at end of input."),
+        "not_covered": ("termination when the reader answers Interrupted forever (partial correctness); that std::io::stdin()'s process-wide "
+                        "BufReader keeps its buffer between lock() calls (documented std behaviour); the prompt printing; lossy UTF-8 "
+                        "replacement of invalid bytes; the Windows implementation."),
+        "trusted_base": [VERUS_TRUST, "std::io::BufRead contract (model Reader in unit read_line)", "memchr_rs::memchr behaves as documented", "std::io::Stdin is a process-wide BufReader (documented)"],
+    },
 }
 
 
